@@ -1121,6 +1121,27 @@ func c14(c *core.Ctx, r *core.Report) {
 						if !isK || k.Value == nil || callBehind(an.Strip(t.X.V), "strconv", "Atoi") != atoi {
 							continue
 						}
+						// the test lies on this path: its call site (or the test itself) is passed, and inside a helper it
+						// precedes every successful return
+						onPath := false
+						rootIn := t.Ev.Root()
+						for _, pb := range p.Blocks {
+							if pb == rootIn.Block() {
+								onPath = true
+							}
+						}
+						if t.Ev.Frame.Parent != nil {
+							hf := t.Ev.Instr.Parent()
+							ei := errIndex(hf)
+							for _, hr := range an.Returns(hf) {
+								if ei >= 0 && isNilConst(hr.Results[ei]) && !an.Dominates(t.Ev.Instr, hr) {
+									onPath = false
+								}
+							}
+						}
+						if !onPath {
+							continue
+						}
 						if (t.Op == token.LSS && constant.Sign(k.Value) == 0) || (t.Op == token.LEQ && k.Int64() == -1) {
 							negRejected = true
 						}
